@@ -581,6 +581,9 @@ func runNegE(c *negCase) (string, string) {
 			onGRPCBroker: func(*plugin.GRPCBroker) { rec() }}}}
 	}
 	cmd := kitCmd(c.kitCfg())
+	// the command the host hands over carries a stale version list of its own (copied from an environment in which the
+	// host itself was launched as a plugin): what the plugin is told must still be what THIS client offers
+	cmd.Env = append(cmd.Env, "PLUGIN_PROTOCOL_VERSIONS=77,78")
 	cfg := &plugin.ClientConfig{
 		HandshakeConfig:  plugin.HandshakeConfig{ProtocolVersion: uint(c.host.lv), MagicCookieKey: kitCookieKey, MagicCookieValue: kitCookieVal},
 		Cmd:              cmd,
